@@ -151,4 +151,63 @@ Proof.
   change (Z.of_nat 171) with 171. lia.
 Qed.
 
+(* ---- the same reader, call by call (for the call-by-call container model xzr_read) -------------- *)
+(* [l2_rs lc lp pb d dd data tail s rem]: the LZMA2Reader state s is somewhere inside the stream
+   written for [data] (or behind its end), still has to deliver [rem], and [tail] follows the stream *)
+Definition l2_rs (lc lp pb d dd : Z) (data tail : list Z) (s : lzma2) (rem : list Z) : Prop :=
+  let h0 := ehist_new d [] data in
+  Inv lc lp pb d (l2_window_size dd) tail (h_data h0) (h_total h0) true s rem \/ (rem = [] /\ Ended tail s).
+
+Lemma l2_rs_new : forall lc lp pb d dd data evs stream tail,
+  0 <= lc -> 0 <= lp -> lc + lp <= 4 -> 0 <= pb <= 4 -> d <= 2147483648 -> d <= dd ->
+  bytes_ok data = true -> l2_no_end evs ->
+  lzma2_write lc lp pb d None data evs = Ok stream ->
+  exists s0, lzma2_new (stream ++ tail) dd None = Ok s0 /\ l2_rs lc lp pb d dd data tail s0 data.
+Proof.
+  intros lc lp pb d dd data evs stream tail Hlc Hlp Hs Hpb Hd Hdd Hbytes Hne Hw.
+  pose proof (lzma2_frame_sync lc lp pb d None data evs stream Hd Hne Hw) as Hck.
+  cbn [start_level preset_list] in Hck.
+  unfold lzma2_new, lzma2_get_dict_size. cbn [obind]. fold (l2_window_size dd).
+  eexists. split; [reflexivity|]. unfold l2_rs. cbv zeta.
+  set (h0 := ehist_new d [] data) in *.
+  left. left. exists RDict, h0, stream. split; [exact Hck|]. split; [|split; [reflexivity|]].
+  - unfold at_boundary. cbn [m_uncompressed_size m_end_reached m_error m_rc m_coder m_probs m_need_props
+                             m_need_dict_reset m_win].
+    split; [reflexivity|]. split; [reflexivity|]. split; [reflexivity|]. split; [reflexivity|].
+    split; [split; [exact I|]; split; intros _; reflexivity|].
+    split; [|unfold hfix; repeat split; reflexivity].
+    unfold sync_win, lzwin_new. cbn [w_size w_pending_len].
+    split; [reflexivity|]. split; [reflexivity|].
+    unfold h0, ehist_new. rewrite preset_kept_nil. cbn [h_base h_pos]. split; [reflexivity | lia].
+  - unfold h0. rewrite (data_from_new d data). reflexivity.
+Qed.
+
+(* one read() with a non-empty destination *)
+Lemma l2_rs_read : forall lc lp pb d dd data tail s rem sz,
+  0 <= lc -> 0 <= lp -> lc + lp <= 4 -> 0 <= pb <= 4 -> d <= 2147483648 -> d <= dd ->
+  bytes_ok data = true ->
+  l2_rs lc lp pb d dd data tail s rem -> 0 < sz ->
+  exists out s' rem', lzma2_read s sz = Ok (out, s') /\ rem = out ++ rem' /\
+    l2_rs lc lp pb d dd data tail s' rem' /\
+    (out = [] -> rem = [] /\ m_in s' = tail) /\ (rem <> [] -> out <> []).
+Proof.
+  intros lc lp pb d dd data tail s rem sz Hlc Hlp Hs Hpb Hd Hdd Hbytes HR Hsz.
+  unfold l2_rs in *. cbv zeta in *. set (h0 := ehist_new d [] data) in *.
+  destruct (l2_window_ge d dd Hd Hdd) as (Hws1 & Hws2 & Hws3).
+  assert (Hdata : forall i, 0 <= aget 0 (h_data h0) i < 256).
+  { intros i. apply (data_ok_new d [] data eq_refl Hbytes i). }
+  destruct HR as [HI | (-> & HE)].
+  - destruct (read_ok (Inv lc lp pb d (l2_window_size dd) tail (h_data h0) (h_total h0) true) tail
+                (Inv_live lc lp pb d (l2_window_size dd) tail (h_data h0) (h_total h0) true)
+                (iter_step lc lp pb d (l2_window_size dd) tail (h_data h0) (h_total h0) Hlc Hlp Hs Hpb Hd Hws3 Hws1 Hws2 Hdata)
+                s rem sz HI Hsz) as (out & s1 & rem1 & Hrd & Hrem & Hcase & Hempty & Hnonempty).
+    exists out, s1, rem1. split; [exact Hrd|]. split; [exact Hrem|].
+    split; [destruct Hcase as [HI1 | (Hn & HE1)]; [left; exact HI1 | right; split; assumption]|].
+    split; [|exact Hnonempty].
+    intros Ho. destruct (Hempty Ho) as (Hr & (_ & _ & Hin)). split; assumption.
+  - exists [], s, []. rewrite (read_ended tail s sz HE Hsz).
+    split; [reflexivity|]. split; [reflexivity|]. split; [right; split; [reflexivity | exact HE]|].
+    split; [|intros X; congruence]. intros _. split; [reflexivity|]. destruct HE as (_ & _ & Hin). exact Hin.
+Qed.
+
 Print Assumptions lzma2_payload_dec_rt.
